@@ -1879,6 +1879,8 @@ class Affine:
             err += 'The array must be 1-D.'
             raise ValueError(err)
 
+        qmat = np.array(qmat, dtype=float)
+        qmat = (qmat + qmat.T) / 2
         eighvals = eigh(qmat, eigvals_only=True).round(6)
         if all(eighvals >= 0):
             sign = 1
